@@ -24,7 +24,7 @@ def generate(seed, tier):
     for i in range(n_cases):
         rng = derived_rng(seed, 'C01', i)
         while True:
-            ds = gen.gen_dataset(rng, max_dims=3, max_size=4, dtypes=('f8', 'f8', 'f4', 'c16', 'compound'))
+            ds = gen.gen_dataset(rng, max_dims=3, max_size=4, dtypes=('f8', 'f8', 'f4', 'c16', 'compound'), long_prob=0.12)
             if gen.n_points(ds['pos']) * gen.n_points(ds['spec']) <= 700:
                 break
         ops = [rng.choice(['toggle', 'read', 'toggle']) for _ in range(rng.randint(0, 5))]
